@@ -145,7 +145,7 @@ theorem GInv.step_up {P : List Val → Prop} {input : List Val} {net net' : Net}
                 rw [hf.hist]; simp [hal1, hil]
               rw [hh]
               have e1 : midF nd = midF (nd.step (.up (.req n))).1 := (step_midF nd _).1.symm
-              exact ⟨by rw [e1]; exact hst.specM (h.par_node hn _).2, fun _ => hst⟩
+              exact ⟨(nodeSpec_step _ _ _ _).mp (hst.specM (h.par_node hn _).2), fun _ => hst⟩
             | cancel => have := h.cancel i (by rw [hupq]; simp); rw [hal1] at this; simp at this
           · have hh : hist net' i = hist net i := by rw [hf.hist]; simp [hal1]
             rw [hh]
@@ -238,7 +238,7 @@ theorem GInv.step_down {P : List Val → Prop} {input : List Val} {net net' : Ne
               rw [hf.hist]; simp [hal1, hlen]
             rw [hh]
             have e1 : midF nd = midF (nd.step (.down d)).1 := (step_midF nd _).1.symm
-            exact ⟨by rw [e1]; exact hst.specM (h.par_node hn _).2, fun _ => hst⟩
+            exact ⟨(nodeSpec_step _ _ _ _).mp (hst.specM (h.par_node hn _).2), fun _ => hst⟩
           · have hh : hist net' (i + 1) = hist net (i + 1) := by rw [hf.hist]; simp [hal1]
             rw [hh]
             refine ⟨hsp.extend [d], fun hal => ?_⟩
@@ -375,7 +375,7 @@ theorem GInv.step_result {P : List Val → Prop} {input : List Val} {net net' : 
             rw [hh]
             have e1 : midF (Node.pmap o w k bad e st) =
                 midF ((Node.pmap o w k bad e st).step (.result t.1 (parFn k bad e t.2))).1 := (step_midF _ _).1.symm
-            exact ⟨by rw [e1]; exact hst.specM (h.par_node hn _).2, fun _ => hst⟩
+            exact ⟨(nodeSpec_step _ _ _ _).mp (hst.specM (h.par_node hn _).2), fun _ => hst⟩
           · have hh : hist net' i = hist net i := by rw [hf.hist]; simp [hal1]
             rw [hh]
             refine ⟨hsp, fun hal => ?_⟩
